@@ -8,8 +8,11 @@
                             (and `*_sizeField`: the size field as a number is the encoded length)
   * `TarDecode.lean`    (3) `decNext_{entry,filename,symlink,device,payload,goodbye,xattr}_enc`
   * `TarRoundTrip.lean` (4) `tarStream_one_file`, `untar_one_file_archive`, `untar_tar_one_file`
+  * `TarPayloadSize.lean`   `tarOne_reg_payload_exact`, `tarOne_reg_short_fails`,
+                            `tarOne_reg_size_field` (payload size field = bytes written, always)
 -/
 import Desync.Proofs.TarBST
 import Desync.Proofs.TarSizes
 import Desync.Proofs.TarDecode
 import Desync.Proofs.TarRoundTrip
+import Desync.Proofs.TarPayloadSize
